@@ -1,5 +1,5 @@
 """C02 — rendering is total: no internal error, no hang, at least one page."""
-from harness import docs, pm, pm_corr, pm_foot_corr, pm_oof_corr, pm_stage2, widegen, wide_trace
+from harness import docs, pm, pm_col_corr, pm_corr, pm_foot_corr, pm_oof_corr, pm_stage2, widegen, wide_trace
 from vlib import sx
 from vlib.framework import PropCheck
 
@@ -54,6 +54,12 @@ class C02(PropCheck):
             'pages); outcome kind and full pagination compared with Model/PaginateFoot; non-trivial = at least 2 pages '
             'and one footnote')
         pm_foot_corr.add_cases(run, sec_foot, run.n(80, 2500), skip_errors=False)
+        sec_col = run.section(
+            'pm-col-outcomes',
+            'stage 2c of the pagination model: documents with multi-column containers; outcome kind (the model has the '
+            'Python failure points of columns_layout as explicit outcomes) and full pagination compared with '
+            'Model/PaginateCol; non-trivial = at least 2 pages and a container')
+        pm_col_corr.add_cases(run, sec_col, run.n(80, 2500), skip_errors=False)
         sec2 = run.section(
             'write-pdf-total',
             'the same documents rendered through the public API and written to PDF: the model of the unmodelled '
@@ -99,7 +105,7 @@ class C02(PropCheck):
     def classify(self, d):
         if d['section'] == 'totality-families' and self._family_known.get(d['meta']['doc_id']) == d['impl']:
             return 'family-documents-known'
-        if d['section'] in ('pm-outcomes', 'pm-oof-outcomes', 'pm-foot-outcomes') and (
+        if d['section'] in ('pm-outcomes', 'pm-oof-outcomes', 'pm-foot-outcomes', 'pm-col-outcomes') and (
                 d['impl'] == 'err:IndexError@page.py:_update_page_groups'):
             return 'page-groups-indexerror'
         if d['section'] == 'pm-foot-outcomes':
@@ -114,6 +120,8 @@ class C02(PropCheck):
     def finding_replays(self):
         return {'flex-item-resume-crash': flex_resume_crash, 'page-groups-indexerror': page_groups_crash,
                 'footnote-policy-block-crash': pm_foot_corr.FINDING_REPLAYS['footnote-policy-block-crash'],
+                'find-earlier-break-in-columns-attribute-error':
+                    lambda: pm_col_corr.replay_witness('colspan_find_earlier_attribute_error'),
                 'footnote-page-groups-attributeerror':
                     pm_foot_corr.FINDING_REPLAYS['footnote-page-groups-attributeerror']}
 
